@@ -312,9 +312,17 @@ std::string href_from_file(std::string_view input) {
 
 bool can_parse(std::string_view input, const std::string_view* base_input) {
   // Must match parse().has_value(), including post-normalization max length.
-  // Percent-encoding expands a byte by at most 3x. When the input (plus base,
-  // if any) fits in max_length/3, the normalized href cannot exceed
+  // Percent-encoding expands a byte by at most 3x; host normalization (IPv4
+  // shorthand such as "ws:1" -> "ws://0.0.0.1/", punycode of a short label)
+  // and the "//", "/" and "/." that serialization adds cost at most a small
+  // constant on top of that. When three times the input (plus base, if any)
+  // plus that slack fits in max_length, the normalized href cannot exceed
   // max_length, so validation-only parsing (store_values=false) is safe.
+  constexpr uint32_t normalization_slack = 32;
+  auto fits_after_normalization = [](size_t size, uint32_t max_length) -> bool {
+    return max_length > normalization_slack &&
+           size <= static_cast<size_t>(max_length - normalization_slack) / 3;
+  };
 
   // Hot path first: absolute special URLs, no base. Avoid loading max_length
   // until we need it (common absolute-fast true/false cases).
@@ -323,10 +331,10 @@ bool can_parse(std::string_view input, const std::string_view* base_input) {
       if (!*r) {
         return false;
       }
-      // size <= max/3 => normalized href cannot exceed max (3x expansion).
+      // 3 * size + slack <= max => normalized href cannot exceed max.
       // Check this first: default max is ~4GB so almost all URLs return true.
       const uint32_t max_length = ada::get_max_input_length();
-      if (input.size() <= static_cast<size_t>(max_length) / 3) {
+      if (fits_after_normalization(input.size(), max_length)) {
         return true;
       }
       if (input.size() > max_length) {
@@ -350,7 +358,7 @@ bool can_parse(std::string_view input, const std::string_view* base_input) {
   // of either side cannot push the final href past max_length.
   const size_t combined =
       input.size() + (base_input == nullptr ? 0 : base_input->size());
-  const bool size_safe = combined <= static_cast<size_t>(max_length) / 3;
+  const bool size_safe = fits_after_normalization(combined, max_length);
 
   if (size_safe) {
     // Validation-only: no buffer build, host still fully checked.
